@@ -195,7 +195,13 @@ func checkProducerConsumer(r *Run, prog *Program, a *Anchors, ga *GA, pfx string
 			r.Note("constants of %s never produced by the grammar: %v", field, dead)
 		}
 	}
-	// 3. binding modes: each mode sets a determined subset of Default/Index/Value, and those are the fields the evaluator binds
+	checkBindingModes(r, prog, ga, pfx)
+	_ = ssa.Function{}
+}
+
+// checkBindingModes: each binding mode sets a determined subset of Default/Index/Value, and those are the names the
+// evaluator binds (the blank placeholder `_` sets none).
+func checkBindingModes(r *Run, prog *Program, ga *GA, pfx string) {
 	info := prog.Grammar.TypesInfo
 	modeFields := map[string][]string{}
 	for n, fd := range ga.onOf {
